@@ -8,6 +8,7 @@ import (
 	"fmt"
 	"io"
 	"strconv"
+	"strings"
 	"time"
 
 	"github.com/mithrandie/csvq/lib/json"
@@ -58,7 +59,7 @@ func encodeCSV(ctx context.Context, fp io.Writer, view *View, options option.Exp
 
 	if !options.WithoutHeader {
 		for i := range view.Header {
-			fields[i] = csv.NewField(view.Header[i].Column, options.EncloseAll)
+			fields[i] = csv.NewField(view.Header[i].Column, options.EncloseAll || strings.ContainsAny(view.Header[i].Column, "\r\n"))
 		}
 		if err := w.Write(fields); err != nil {
 			return NewSystemError(err.Error())
@@ -77,6 +78,10 @@ func encodeCSV(ctx context.Context, fp io.Writer, view *View, options option.Exp
 			str, effect, _ := ConvertFieldContents(view.RecordSet[i][j][0], false, options.ScientificNotation)
 			quote := false
 			if options.EncloseAll && (effect == option.StringEffect || effect == option.DatetimeEffect) {
+				quote = true
+			}
+			if strings.ContainsAny(str, "\r\n") {
+				// a line break inside a field is only readable back when the field is enclosed
 				quote = true
 			}
 			fields[j] = csv.NewField(str, quote)
